@@ -166,6 +166,27 @@ chk("C02", "latx", "exploration",
     "Lattice inputs only; identity tolerance 1e-9 E + 1e-11 max|U|; failures for 'extreme' budgets (< 2^-40 |U| or "
     "within 2^-40 of the hill height) are the recorded known finding.", "DESIGN.md §5/C02")
 
+chk("C03", "latx", "exploration",
+    "exhaustive evaluation of every potential's real derivative() on lattices of the minimum-image cube (regular grid, "
+    "faces, near origin, axis-permuted triples) x directions x speeds x charge pairs x parameters x box lengths, "
+    "compared with the analytic derivative of an independently coded energy, a central difference in which the "
+    "active unit is moved, and for the periodic Coulomb potential an independently coded Ewald sum; metamorphic "
+    "relations (oddness, L-periodicity, splitting independence, linearity) and copy/deepcopy/pickle/dill equality",
+    "The lattice contains the points where the C code folds octants / switches images; the independent Ewald sum uses "
+    "plain triple sums with a different splitting parameter and larger cut-offs.",
+    "Lattice inputs only; tolerance 2e-8 (1/r^2 + 1/L^2) for the lattice sum with the shipped cut-offs.",
+    "DESIGN.md §5/C03")
+chk("C04", "latx+envx", "exploration",
+    "exhaustive lattice evaluation (41^3 / 81^3 nodes x directions x charge signs x box lengths, plus deterministic "
+    "pattern search for the supremum) of the real periodic Coulomb potential against the real 1/r bound; acceptance "
+    "threshold of the real thinning handlers (also deep-copied, as in handler pools) located by bisection over the "
+    "scripted confirmation draw; domination monitored at every thinned event of all <= 1-deviation executions of the "
+    "shipped configurations that use this bound",
+    "Domination is checked on the actual objects with the shipped prefactors; the confirmation probability is "
+    "measured as the exact set of accepted draws, not sampled.",
+    "Lattice resolution L/40 (L/80) plus local refinement: a violation confined to a region much smaller than that and "
+    "away from the largest ratios can escape.", "DESIGN.md §5/C04")
+
 ENGINES = [
     {"name": "schedx", "path": "jfv/schedx.py", "serves_properties": ["C20"],
      "kind_free_text": "controlled cooperative scheduler over fake multiprocessing primitives; deviation-bounded "
